@@ -49,6 +49,8 @@ var verifTemplates = []verifTemplate{
 	{"range-variable-reiterated", "fn main() {\n  let r = 0..5;\n  for i in r {\n    if i == 2 { break; }\n  }\n  for i in r { println(i); }\n  let q = 0..=2;\n  for i in q { for j in q { println(i, j); } }\n}\n"},
 	{"string-variable-reiterated", "fn first(s: str, c: str) -> bool {\n  for x in s {\n    if x == c { return true; }\n  }\n  return false;\n}\nfn main() {\n  let s = \"abc\";\n  println(first(s, \"b\"), first(s, \"a\"));\n  for x in s { println(x); }\n}\n"},
 	{"range-parameter-searched-twice", "fn has(r: range, n: int) -> bool {\n  for i in r {\n    if i == n { return true; }\n  }\n  return false;\n}\nfn main() {\n  let r = 0..4;\n  println(has(r, 3), has(r, 1), has(r, A));\n}\n"},
+	{"closure-argument-names", "fn main() {\n  let f = fn(a: int, b: int) -> int { a - b };\n  let a = A;\n  let b = B;\n  println(f(b, a), f(a, b), f(b + 1, a + b));\n}\n"},
+	{"catch-identifier-scope", "fn main() {\n  let e = A;\n  try {\n    throw(\"x\");\n  } catch e {\n    println(e.message);\n  }\n  println(e);\n  let v = try { if P { throw(\"y\"); } 1 } catch e { 2 };\n  println(v, e + 1);\n}\n"},
 	{"listloop", "fn main() {\n  let l = [A, B, C];\n  let sum = 0;\n  for x in l { sum += x; }\n  println(sum, l);\n}\n"},
 }
 
